@@ -18,7 +18,7 @@ import sys
 from harness import buildlib as B
 from harness.common import Run
 
-CONE = ["Base.v", "IR.v", "Show.v", "Build.v", "Sem.v", "Plan.v", "Named.v", "Validate.v", "BuildFacts.v", "SemFacts.v"]
+CONE = ["Base.v", "IR.v", "Show.v", "Build.v", "Sem.v", "Plan.v", "Named.v", "Validate.v", "BuildFacts.v", "SemFacts.v", "CompilePres.v", "ScopeFacts.v", "IOFacts.v"]
 PROPS = "props/C03.v"
 
 
@@ -179,6 +179,15 @@ def run(run: Run) -> int:
     n = 300 if run.tier == "quick" else 3000
     cases, hist = gen_cases(run, n)
     mism = B.correspondence(run, "c03", cases)
+    # premise of the validator-free theorem C03_inputs_are_the_requested_arguments_under_their_names, evaluated on every request
+    live = [c for c in cases if c.coq is not None]
+    header = B.COQ_HEADER.replace("Build Show Validate.", "Build Show Validate IOFacts.")
+    flags = run.coq_eval("c03wf", header, [f"inputs_wf_b {p} {r}" for p, r in (c.coq for c in live)], shard=max(1, min(60, (len(live) + 15) // 16)))
+    n_wf = sum(x.strip() == "true" for x in flags)
+    if n_wf != len(live):
+        bad = next(c for c, x in zip(live, flags) if x.strip() != "true")
+        run.fail("corr", "C03/input-premise-not-met", "a reflected request does not meet the premise of the by-construction input theorem "
+                 "(an argument is not an output of its node)", B.describe(bad))
     mode_hist, out_hist = collections.Counter(), collections.Counter()
     distinct = set()
     n_bad = 0
@@ -217,7 +226,7 @@ def run(run: Run) -> int:
         "rule": "random programs x request shapes (permuted, subsets, extra unused arguments, non-Var / non-argument inputs, "
                 "non-Var outputs, empty outputs) x drop_unused_inputs; distinct by (request, outcome); non-trivial = request differs from the generator's",
         "traces_validated_against_impl": len([c for c in cases if c.coq is not None]) - len(mism),
-        "disagreements_checked": len(mism), "direct_oracle_failures": n_bad,
+        "disagreements_checked": len(mism), "input_theorem_premise_met": f"{n_wf} of {len(live)} requests", "direct_oracle_failures": n_bad,
         "fresh_process_repeats": {"cases": len(idx), "hash_seeds": 4},
         "input_distribution": {"request_modes": dict(mode_hist), "outcomes": dict(out_hist), "operators": hist},
         "samples": [B.describe(c) for c in cases[:2]],
